@@ -49,7 +49,25 @@ fn maps() -> Vec<Beatmap> {
         // #11: a file whose own mode is mania but that lists slider-type objects (the decoder keeps them as sliders; mania
         // derives their length on the fly)
         MapSpec::new(3, vec![o(Kind::Circle, 0, PosK::Same, 0, 0), o(Kind::SliderLong, 150, PosK::Same, 0, 1), o(Kind::Slider2, 100, PosK::Same, 0, 2), o(Kind::Circle, 100, PosK::Same, 0, 3), o(Kind::SliderLong, 200, PosK::Same, 0, 0), o(Kind::Slider5, 90, PosK::Same, 0, 2)]).decode(),
+        // #12 / #13: taiko maps with 72 / 90 inherited points that alternate scroll speed and kiai, a hit between every two
+        // (lists long enough for a "last lookup" hint or a bisection cache to be worth keeping)
+        many_points_map(72, 0),
+        many_points_map(90, 1),
     ]
+}
+
+fn many_points_map(points: u32, flavour: u32) -> Beatmap {
+    use std::fmt::Write as _;
+    let mut t = String::from("osu file format v14\n\n[General]\nMode: 1\n\n[Difficulty]\nHPDrainRate:5\nCircleSize:4\nOverallDifficulty:7\nApproachRate:8\nSliderMultiplier:1.4\nSliderTickRate:1\n\n[TimingPoints]\n0,500,4,2,0,60,1,0\n");
+    for i in 0..points {
+        let sv = [-50, -100, -200, -66][((i + flavour) % 4) as usize];
+        let _ = writeln!(t, "{},{sv},4,2,0,60,0,{}", 1000 + i * 120, (i + flavour) % 2);
+    }
+    t.push_str("\n[HitObjects]\n");
+    for i in 0..points {
+        let _ = writeln!(t, "256,192,{},1,{},0:0:0:0:", 1030 + i * 120, if (i / 3 + flavour) % 2 == 0 { 0 } else { 8 });
+    }
+    Beatmap::from_bytes(t.as_bytes()).expect("decodes")
 }
 
 fn setts() -> Vec<Setting> {
@@ -159,7 +177,7 @@ impl World {
 fn jobs(len: usize) -> Vec<Vec<Step>> {
     let mut v: Vec<Vec<Step>> = Vec::new();
     // taiko with two different Random seeds, mania convert with Random and key mods, osu, plus gradual walks
-    let bases: Vec<(u8, u8, u8)> = vec![(0, 0, 0), (1, 1, 2), (1, 1, 3), (0, 3, 2), (0, 3, 4), (2, 3, 3), (0, 1, 1), (0, 2, 1), (5, 2, 5), (6, 2, 1), (7, 3, 0), (8, 3, 0), (9, 3, 4), (9, 3, 6), (11, 3, 0)];
+    let bases: Vec<(u8, u8, u8)> = vec![(0, 0, 0), (1, 1, 2), (1, 1, 3), (0, 3, 2), (0, 3, 4), (2, 3, 3), (0, 1, 1), (0, 2, 1), (5, 2, 5), (6, 2, 1), (7, 3, 0), (8, 3, 0), (9, 3, 4), (9, 3, 6), (11, 3, 0), (12, 1, 0), (13, 1, 1)];
     for &(map, dst, s) in &bases {
         let mut a = vec![Step::Difficulty { map, dst, s }, Step::Performance { map, dst, s }, Step::Strains { map, dst, s }];
         a.truncate(len);
@@ -207,6 +225,8 @@ fn guard_jobs() -> Vec<Vec<Step>> {
         vec![Step::Difficulty { map: 10, dst: 0, s: 0 }, Step::Strains { map: 10, dst: 0, s: 0 }],
         vec![Step::Difficulty { map: 10, dst: 1, s: 0 }, Step::Difficulty { map: 10, dst: 0, s: 1 }],
         twice(Step::Difficulty { map: 11, dst: 3, s: 0 }),
+        twice(Step::Difficulty { map: 12, dst: 1, s: 0 }),
+        vec![Step::Difficulty { map: 13, dst: 1, s: 1 }, Step::Strains { map: 13, dst: 1, s: 1 }],
         vec![Step::Strains { map: 11, dst: 3, s: 0 }, Step::Performance { map: 11, dst: 3, s: 0 }],
         vec![Step::ClonedPerformance { base: 0, s: 0 }, Step::ClonedPerformance { base: 1, s: 2 }],
         vec![Step::ClonedPerformance { base: 0, s: 1 }, Step::ClonedPerformance { base: 1, s: 4 }],
@@ -327,7 +347,7 @@ fn main() {
         std::env::set_var("VERIF_NO_EVIDENCE", "1");
     }
     let ctx = Ctx::from_env("C20");
-    ctx.rule("(A) interference: every assignment of jobs (difficulty / performance / strains calls, gradual difficulty and gradual performance walks split into their steps; clones of one prepared calculator given different Difficulty values; taiko and mania conversions with two different Random seeds and key mods; shared &Beatmap) from a pool to T threads and every interleaving of the threads' calls (T=2 x 3 calls: 20 schedules per assignment; T=3 x 2 calls: 90; thorough T=3 x 3: 1680) executed on real OS threads under the baton scheduler; oracle = every call returns the value it returns when its thread runs alone, shared maps unchanged. (B) hand-over: every gradual calculator that is Send in this build (all of them in the `sync` build, which the default build runs as a child) is moved between T <= 3 threads at the step boundaries: all T^n ownership sequences, n <= 4 (quick) / 5, incl. create on one thread and drop on another; oracle = the single-thread sequence. (D) shared-access preemption: 24 jobs of two calls, all 300 unordered pairs on two real threads with the pages of the library's writable statics and of the shared Beatmap structs protected; scheduling points = thread start, call boundaries, every write to a guarded region, every read of a location some job writes; every choice vector with <= 2 preemptions, each execution in a fresh process; oracle = every call returns what it returns when its job runs alone in a fresh process, also when repeated sequentially after the concurrent run. (C) free-running: the (A) job bodies on 16 unsynchronised threads for a fixed number of rounds against the sequential table — sampling, reported separately under coverage.free_running and not part of the exhaustive claim; non-trivial = schedules with more than one thread / ownership sequences that change thread");
+    ctx.rule("(A) interference: every assignment of jobs (difficulty / performance / strains calls, gradual difficulty and gradual performance walks split into their steps; clones of one prepared calculator given different Difficulty values; taiko and mania conversions with two different Random seeds and key mods; shared &Beatmap) from a pool to T threads and every interleaving of the threads' calls (T=2 x 3 calls: 20 schedules per assignment; T=3 x 2 calls: 90; thorough T=3 x 3: 1680) executed on real OS threads under the baton scheduler; oracle = every call returns the value it returns when its thread runs alone, shared maps unchanged. (B) hand-over: every gradual calculator that is Send in this build (all of them in the `sync` build, which the default build runs as a child) is moved between T <= 3 threads at the step boundaries: all T^n ownership sequences, n <= 4 (quick) / 5, incl. create on one thread and drop on another; oracle = the single-thread sequence. (D) shared-access preemption: 26 jobs of two calls, all 351 unordered pairs on two real threads with the pages of the library's writable statics and of the shared Beatmap structs protected; scheduling points = thread start, call boundaries, every write to a guarded region, every read of a location some job writes; every choice vector with <= 2 preemptions, each execution in a fresh process; oracle = every call returns what it returns when its job runs alone in a fresh process, also when repeated sequentially after the concurrent run. (C) free-running: the (A) job bodies on 16 unsynchronised threads for a fixed number of rounds against the sequential table — sampling, reported separately under coverage.free_running and not part of the exhaustive claim; non-trivial = schedules with more than one thread / ownership sequences that change thread");
     ctx.assume("(A)/(B) switch threads at public call boundaries only; that is complete iff two calculations share no mutable location, which (D) checks on this very build: every access to the library's writable statics (found in the binary's symbol table) and to the shared Beatmap structs is intercepted, and where a job writes such a location all schedules with <= 2 preemptions at those accesses are explored. Outside every exhaustive part: heap state reached only through a pointer stored in a static, weak-memory reorderings; (C) samples those");
 
     let world = World::new(Box::leak(maps().into_boxed_slice()));
